@@ -32,7 +32,7 @@ type Profile struct {
 	ROHandleP float64 // probability of re-opening through a read-only handle
 	Final     []string
 	// oracles
-	CheckReads, CheckWrites, CheckDecode, CheckStruct, CheckTree, CheckFree, CheckLedger bool
+	CheckReads, CheckWrites, CheckDecode, CheckStruct, CheckTree, CheckFree, CheckLedger, CheckPins bool
 	PrioModes  []int
 	SmallSetsP float64 // probability of a tiny key set (C13)
 	Sizes      []int   // C16: explicit collection sizes to build
@@ -67,7 +67,7 @@ func Profiles() map[string]*Profile {
 		Judge:     []string{"set", "setitem", "del", "get", "getitem", "exist", "min", "max", "totals", "audit", "open", "reopen"},
 		AuditMode: "get", MaxStores: 1, AllowMem: true, MemOnlyP: 0.3, MinOps: 10, MaxOps: 80, LongRunP: 0.03, LongOps: 1200,
 		MaxColls: 4, MaxKeys: 40, CBChoices: allCB, CustomCmp: true, BigValues: true, PrioModes: []int{0, 1, 2, 3, 4}})
-	add(&Profile{Name: "C02", Weights: mergeW(baseWeights(), map[string]float64{"faultyflush": 0.5, "flush": 4, "reopen": 2.5, "setcoll": 1, "rmcoll": 0.6, "audit": 0.5, "reopen2": 0.5}),
+	add(&Profile{Name: "C02", Weights: mergeW(baseWeights(), map[string]float64{"faultyflush": 0.5, "write": 0.6, "flush": 4, "reopen": 2.5, "setcoll": 1, "rmcoll": 0.6, "audit": 0.5, "reopen2": 0.5}),
 		Judge:     []string{"flush", "open", "reopen", "audit"},
 		AuditMode: "visit", MaxStores: 1, MinOps: 10, MaxOps: 80, LongRunP: 0.03, LongOps: 800,
 		MaxColls: 4, MaxKeys: 30, CBChoices: allCB, CustomCmp: true, BigValues: true, CheckDecode: true, PrioModes: []int{0, 1, 2, 4}})
@@ -88,7 +88,7 @@ func Profiles() map[string]*Profile {
 		Judge:     []string{"open", "reopen"},
 		AuditMode: "visit", MaxStores: 2, AllowMem: false, MinOps: 10, MaxOps: 80, LongRunP: 0.03, LongOps: 600,
 		MaxColls: 3, MaxKeys: 24, CBChoices: allCB, CustomCmp: true, Nested: true, CheckWrites: true, ROHandleP: 0.2, AdvValues: true, PrioModes: []int{0, 1, 4}})
-	add(&Profile{Name: "C10", Weights: mergeW(mergeW(baseWeights(), snapW), map[string]float64{"faultymut": 0.8, "reopen": 1.2, "visit": 4, "iter": 1, "setcoll": 1, "rmcoll": 0.5, "close": 0.3, "burst": 2, "audit": 3, "snaprevert": 0.2, "copyto": 0.2}),
+	add(&Profile{Name: "C10", CheckPins: true, Weights: mergeW(mergeW(baseWeights(), snapW), map[string]float64{"faultymut": 0.8, "faultyflush": 0.6, "flush": 3, "reopen": 1.2, "visit": 4, "iter": 1, "setcoll": 1, "rmcoll": 0.5, "close": 0.3, "burst": 2, "audit": 3, "snaprevert": 0.2, "copyto": 0.2}),
 		AuditMode: "visit", MaxStores: 3, AllowMem: true, MinOps: 10, MaxOps: 80, LongRunP: 0.03, LongOps: 600,
 		MaxColls: 3, MaxKeys: 24, CBChoices: []int{0, 0, CBAlloc}, CustomCmp: true, Nested: true, CheckFree: true, PrioModes: []int{0, 1, 2, 4}})
 	add(&Profile{Name: "C11", Weights: mergeW(mergeW(baseWeights(), snapW), map[string]float64{"copyto": 3, "setcoll": 0.4, "rmcoll": 0.2, "evict": 3, "snapwrite": 0, "snaprevert": 0}),
@@ -113,7 +113,7 @@ func Profiles() map[string]*Profile {
 		AuditMode: "visit", MaxStores: 2, AllowMem: true, MinOps: 6, MaxOps: 60, LongRunP: 0.02, LongOps: 400,
 		MaxColls: 3, MaxKeys: 20, CBChoices: []int{CBRef, CBAlloc | CBRef, CBAll, CBAlloc | CBRef | CBAfterRead | CBBeforeWrite}, CustomCmp: true, Nested: true,
 		CheckLedger: true, Final: []string{"releaseall"}, PrioModes: []int{0, 1, 4}})
-	add(&Profile{Name: "C18", Weights: mergeW(baseWeights(), map[string]float64{"iter": 8, "visit": 5, "snapshot": 0.5, "snapclose": 0.3, "evict": 2, "audit": 0.3}),
+	add(&Profile{Name: "C18", CheckPins: true, Weights: mergeW(baseWeights(), map[string]float64{"faultyvisit": 1.5, "reopen": 1.5, "iter": 8, "visit": 5, "snapshot": 0.5, "snapclose": 0.3, "evict": 2, "audit": 0.3}),
 		Judge:     []string{"iter", "visit"},
 		AuditMode: "visit", MaxStores: 1, AllowMem: true, MemOnlyP: 0.3, MinOps: 6, MaxOps: 50, LongRunP: 0.02, LongOps: 300,
 		MaxColls: 2, MaxKeys: 30, CBChoices: []int{0, 0, CBAll}, CustomCmp: true, Nested: true, PrioModes: []int{0, 1, 4}})
@@ -710,6 +710,28 @@ func (g *Gen) build(kind string) (Op, bool) {
 				return Op{Kind: "flush", S: h.ID, Faults: []Fault{f}}, true
 			}
 		}
+	case "faultyvisit":
+		// a visit / iterator / lookup ended by one read fault
+		for _, h := range g.permuted(g.readable()) {
+			if h.Disk < 0 {
+				continue
+			}
+			name, cc, mc := g.pickColl(h)
+			if mc == nil {
+				continue
+			}
+			f := Fault{Disk: h.Disk, Kind: FReadErr, K: r.Range(1, 12)}
+			op := Op{Kind: "visit", S: h.ID, C: name, WV: r.Bool(0.5), Desc: r.Bool(0.5), Var: "ex", Faults: []Fault{f}}
+			op.Key, op.KeyNil = g.target(cc, mc)
+			switch r.Intn(4) {
+			case 0:
+				op.Kind, op.Var = "iter", ""
+				op.Script = g.iterScript(len(mc.Items))
+			case 1:
+				op = Op{Kind: "getitem", S: h.ID, C: name, Key: g.pickKey(cc, mc, 0.8), WV: r.Bool(0.5), Faults: []Fault{f}}
+			}
+			return op, true
+		}
 	case "faultymut":
 		// a mutation hit by one read fault (only reaches the file when the
 		// tree is not fully cached), followed by a successful one
@@ -768,7 +790,16 @@ func (g *Gen) build(kind string) (Op, bool) {
 		if len(hs) > 0 {
 			h := hs[r.Intn(len(hs))]
 			cc := g.colls[r.Intn(len(g.colls))]
-			return Op{Kind: "setcoll", S: h.ID, C: cc.Name, Cmp: cc.Cmp}, true
+			op := Op{Kind: "setcoll", S: h.ID, C: cc.Name, Cmp: cc.Cmp}
+			if mc, ok := h.M.Colls[cc.Name]; ok && len(mc.Items) <= 1 && g.p.CustomCmp && r.Bool(0.4) {
+				// a really different comparator is installable while at most
+				// one item exists
+				op.Cmp = r.Intn(NumCmp)
+			}
+			if op.Cmp == CmpBytes && r.Bool(0.5) {
+				op.N2 = 1 // pass a nil comparator
+			}
+			return op, true
 		}
 	case "rmcoll":
 		hs := g.writable()
